@@ -186,7 +186,12 @@ class TextMixin:
                     continue
                 for pi, part in enumerate(line):
                     if isinstance(part, (list, tuple)) and part[0] in HOLE_PREDS:
-                        nm = 'f%dl%dp%d' % (fi, li, pi)
+                        if len(part) > 2:
+                            nm = 'h_' + part[2]          # named hole, position independent
+                            if nm in out:
+                                continue
+                        else:
+                            nm = 'f%dl%dp%d' % (fi, li, pi)
                         out[nm] = self.sym_str(eng, nm, part[1], HOLE_PREDS[part[0]])
         return out
 
@@ -206,6 +211,10 @@ class TextMixin:
                         s = s + inp['f%dl%dp%d' % (fi, part[1], part[2])]
                     elif part[0] == 'REF':
                         s = s + inp['f%dl%dp%d' % (part[1], part[2], part[3])]
+                    elif part[0] == '=':
+                        s = s + inp['h_' + part[1]]
+                    elif len(part) > 2:
+                        s = s + inp['h_' + part[2]]
                     else:
                         s = s + inp['f%dl%dp%d' % (fi, li, pi)]
                 out.append(s)
